@@ -162,6 +162,37 @@ def c18(tier):
                         elif ok_via != (want == "true"):
                             rep.violation(key + "|meaning", dict(payload, handler=hname, expected=want, observed=b),
                                           "%s handler: with these parameters the source says %s, the applied validator %s" % (hname, want, "succeeds" if ok_via else "fails"))
+        # the same histories on the blueprint re-declared for Plutus V1 and V2 (legacy blueprints handed to `aiken blueprint apply`):
+        # whatever is applied, the published hash must stay the ledger hash of the published code FOR THE DECLARED VERSION
+        if sig == list(SIGS)[0]:
+            for ver, vnum in (("v1", 1), ("v2", 2)):
+                legacy = json.loads(json.dumps(o["blueprint"]))
+                legacy["preamble"]["plutusVersion"] = ver
+                legacy["validators"] = [x for x in legacy["validators"] if mine(x)]
+                for x in legacy["validators"]:
+                    x["hash"] = ledger_hash(x["compiledCode"], vnum)
+                lo = vlib.run_harness("blueprint_ops", stdin_lines=[{"id": 0, "dir": "", "blueprint_json": json.dumps(legacy),
+                                                                      "histories": [[{"op": e["op"], "d": e.get("d")} for e in h["hist"]] for h in hs[:400]], "ctxs": {}, "ops": [],
+                                                                      "select": {"module": "v", "validator": "v"}}], timeout=1800)[0]
+                if lo.get("build") != "ok":
+                    raise vlib.ToolError("C18: the %s blueprint does not load: %s" % (ver, json.dumps(lo.get("build"))[:400]))
+                if lo["blueprint"]["preamble"].get("plutusVersion") != ver:
+                    rep.violation("legacy-version:" + ver, {"declared": ver, "loaded": lo["blueprint"]["preamble"]}, "loading a %s blueprint changes its declared version" % ver)
+                for h, ho in zip(hs[:400], lo["histories"]):
+                    for j, (e, st) in enumerate(zip(h["hist"], ho["steps"])):
+                        steps_total += 1
+                        if st["r"] == "panic":
+                            rep.violation("legacy-panic:%s:%s" % (ver, cj([[e2["op"], e2.get("d")] for e2 in h["hist"]])), {"version": ver, "history": h["hist"], "step": j + 1, "observed": st},
+                                          "%s blueprint, step %d panicked" % (ver, j + 1))
+                            break
+                        bad = [x for x in st["validators"] if ledger_hash(x["compiledCode"], vnum) != x["hash"]]
+                        if bad:
+                            rep.violation("legacy-hash:%s:%s" % (ver, cj([[e2["op"], e2.get("d")] for e2 in h["hist"]])),
+                                          {"version": ver, "history": h["hist"], "step": j + 1, "published": bad[0]["hash"], "ledger_hash_for_declared_version": ledger_hash(bad[0]["compiledCode"], vnum),
+                                           "hash_as_v2": ledger_hash(bad[0]["compiledCode"], 2), "hash_as_v3": ledger_hash(bad[0]["compiledCode"], 3)},
+                                          "%s blueprint, step %d (%s): the published hash is not the ledger hash of the published code for Plutus %s" % (ver, j + 1, e["op"], ver))
+                            break
+                        hash_checked += 1
         samples.append({"signature": sig, "history": hs[len(hs) // 2]["hist"], "verdicts": hs[len(hs) // 2]["verdicts"]})
         log("[c18] %s: %d histories" % (sig, len(hs)))
     if full < 100:
